@@ -163,6 +163,11 @@ fn source_strategy(tier: Tier) -> BoxedStrategy<String> {
         "{% autoescape 'json' %}{% for q in l %}{{ loop.index }}{{ q }}{% endfor %}{{ ls|length }}{{ f }}{{ b }}{{ n }}{% endautoescape %}",
         "{% autoescape 'none' %}{{ '<&>' }}{{ 0 }}{% endautoescape %}",
         "{{ 0 }}{{ 9 }}{{ 10 }}{{ 255 }}{{ 256 }}{{ -1 }}{{ l|length }}",
+        // strings inside containers are written as quoted literals, piece by piece: plain runs
+        // and escape sequences alternate
+        "{{ ['plain\\nrun', 'a\"b', \"it's\", 'tab\\there', 'back\\\\slash', 'end\\r'] }}",
+        "{{ {'key\\n': 'v\"w', 'k2': ['x\\ty\\tz']} }}{{ ls }}",
+        "{% autoescape false %}{{ [s ~ '\\n' ~ s, '\\x01mid\\x02'] }}{% endautoescape %}",
     ]);
     let structured = (prop::collection::vec(pieces, 1..7), any::<bool>(), any::<bool>()).prop_map(|(p, inherit, sup)| {
         let body = p.concat();
